@@ -198,6 +198,8 @@ async def run_script(job):
                     ev("sentwait", s=c["s"])
                 except Exception as e:
                     ev("sentwait", s=c["s"], err=type(e).__name__)
+            elif k == "pause":
+                await asyncio.sleep(c.get("secs", 1))       # real time passes (slow clients; thorough tier)
             elif k == "cliwait":
                 # the bundled CLI client sends a command whose method waits for several seconds (until-closed; the application
                 # closes the pool after c["secs"]): the reply - and only the reply - must appear once the wait is over
